@@ -188,8 +188,16 @@ def run_modules(run: Run, modules, n_random):
 
 
 def run(run: Run) -> int:
-    run.check_theorems(PROPS, CONE, thorough_coqchk=(run.tier == "thorough"))
+    # (common.check_theorems' own coqchk option compiles the copy under the wrong logical name; coqchk is run below instead)
+    run.check_theorems(PROPS, CONE, thorough_coqchk=False)
     n_random = 1 if run.tier == "quick" else 12
+    import spox
+
+    from harness.common import REPO
+
+    tree = str(Path(spox.__file__).resolve())
+    if not tree.startswith(str((REPO / "src").resolve())):
+        run.fail("proof", "C11/wrong-tree", "spox was not imported from the tree under verification", {"spox": tree, "VERIF_REPO": str(REPO)})
     dumps, files, res, t_dump, t_coq = run_modules(run, D.MODULES, n_random)
     gen_ok = 0
     gen_total = D.GEN_THEOREMS_PER_MODULE * len(dumps)
@@ -257,6 +265,23 @@ def run(run: Run) -> int:
             run.notes.append(f"{label}: known-finding keys no longer failing (fixed?): {stale}")
     run.obligations += gen_total
     run.discharged += gen_ok
+    if run.tier == "thorough":
+        # independent re-check of the compiled theorem files (generic + generated) by coqchk
+        t3 = time.time()
+        sc = run.scratch() / "gen"
+        libs = ["Spox.props.C11"] + [f"Gen.{files[d['label']].stem}" for d in dumps if res[files[d['label']]][0] == "0"]
+        listing = "\n".join(libs)
+        sh(f"xargs -P{NPROC} -I{{}} sh -c 'timeout 900 coqchk -silent -o -R {COQ} Spox -R {sc} Gen {{}} > {sc}/{{}}.chk 2>&1; "
+           f"echo $? > {sc}/{{}}.chkrc'", input=listing, timeout=960)
+        chk = {}
+        for lib in libs:
+            rcf = sc / f"{lib}.chkrc"
+            chk[lib] = rcf.read_text().strip() if rcf.exists() else "?"
+            if chk[lib] != "0":
+                out_f = sc / f"{lib}.chk"
+                run.fail("proof", f"C11/coqchk/{lib}", "coqchk rejected a compiled theorem file",
+                         out_f.read_text(errors="replace")[-1500:] if out_f.exists() else "")
+        run.cov["coqchk"] = {"libraries": chk, "wall_s": round(time.time() - t3, 1)}
     # direct oracle
     t2 = time.time()
     n_checked, bad = oracle_check_nodes(run, dumps)
@@ -279,6 +304,7 @@ def run(run: Run) -> int:
                     nontrivial.add((d["label"], e["key"], json.dumps([o["args"], o["given"]], default=str)))
     cov = {
         "exhaustive": True,
+        "tree_under_verification": tree,
         "entries": total_entries,
         "expected_entries_on_pinned_tree": 980,
         "evaluations": n_obs,
